@@ -136,6 +136,40 @@ def run(res, tier, build_ok):
         res.count("value kind " + "/".join(sorted(set(kinds))))
         res.count("ops", len(ops))
         reqs.append(("enumworld %s %s" % ("|".join(inits), ";".join(ops)), "ok " + ";".join(obs)))
+    # ---- the library's own enumerations: the service-action enumeration of every operation code of every command
+    #      set is an enumeration of its own; adding to / removing from one leaves every other one (same name in
+    #      another set, another name in the same set) as it was.  The tables are restored afterwards.
+    from lib import cmds
+    sets = cmds.opcode_sets()
+    owners = [(sn, k, getattr(e, k)) for sn, e in sets.items() for k in e.keys]
+    owners = [(sn, k, oc) for sn, k, oc in owners if hasattr(oc, "serviceaction")]
+    snapshot = lambda: [(sn, k, tuple((n, getattr(oc.serviceaction, n)) for n in oc.serviceaction.keys)) for sn, k, oc in owners]
+    before = snapshot()
+    picks = rng.sample(range(len(owners)), min(len(owners), 25 * scale))
+    # always include an operation code that exists under the same name in several sets
+    for want in ("PERSISTENT_RESERVE_IN", "INQUIRY", "MODE_SENSE_6"):
+        picks += [i for i, (sn, k, oc) in enumerate(owners) if k == want][:2]
+    for i in picks:
+        sn, k, oc = owners[i]
+        name = "VERIF_PROBE_%d" % i
+        try:
+            oc.serviceaction.add(name, 0x1F)
+        except KeyError:
+            res.violation("library enum add refused", "adding a fresh name to %s.%s.serviceaction was refused" % (sn, k), {"set": sn, "opcode": k})
+            continue
+        after = snapshot()
+        changed = [(a[0], a[1]) for a, b in zip(after, before) if a != b]
+        expect = [(sn, k)]
+        res.case(("library enum", sn, k), None)
+        res.count("library service-action enumerations mutated")
+        if changed != expect:
+            others = [c for c in changed if c != (sn, k)]
+            res.violation("library enum shared", "adding a name to %s.%s.serviceaction also changed %s" % (sn, k, ", ".join("%s.%s" % c for c in others[:6])),
+                          {"mutated": [sn, k], "also_changed": others[:20]})
+        oc.serviceaction.remove(name)
+        if snapshot() != before:
+            res.violation("library enum remove", "removing the added name from %s.%s.serviceaction did not restore the tables" % (sn, k), {"set": sn, "opcode": k})
+            break
     reps = drv.batch([r[0] for r in reqs])
     for (line, impl), rep in zip(reqs, reps):
         if rep != impl:
